@@ -98,6 +98,7 @@ def write_evidence(prop, tier, seed, results, wall, violations, known_lines, int
         for k in r.get("fault_kinds", []):
             faultcfg[k] += 1
     runs = len([r for r in results if r["seed"] is not None])
+    aborted = Counter(r.get("aborted") for r in results if r.get("aborted"))
     fired = {
         "message_dropped": stats["net.dropped"], "message_duplicated": stats["net.duplicated"],
         "partitions": stats["net.partitions"], "delivered_to_down_party": stats["net.to_down_party"],
@@ -132,6 +133,13 @@ def write_evidence(prop, tier, seed, results, wall, violations, known_lines, int
             "distinct_interleavings": len(inter),
             "refused_commands": {k[8:]: v for k, v in stats.items() if k.startswith("refused:")},
             "protocol_diagnostics": dict(diags),
+            "bounded_liveness_after_faults_stop": {
+                "runs_drained": stats["drain.converged"] + stats["drain.not_converged"],
+                "converged": stats["drain.converged"], "not_converged_within_cap": stats["drain.not_converged"],
+                "mean_events_to_converge": round(stats["drain.events"] / max(1, stats["drain.converged"] + stats["drain.not_converged"]), 1),
+                "cap_events": 1500,
+                "note": "diagnostic of the stub protocol on top of the library, not a property verdict"},
+            "runs_aborted_outside_domain": dict(aborted),
             "rebases": stats["rebase"],
             "applications": stats["apply"],
             "components": COMPONENTS,
